@@ -138,6 +138,103 @@ theorem v3_filter_spec (segs : List Seg) (idx T : Nat) (s : Seg) :
     s ∈ filterSegs segs idx T ↔ s ∈ segs ∧ idx ≤ s.index ∧ (T = 0 ∨ s.created ≤ T) := by
   simp [filterSegs]
 
+/-! ### Format arbitration -/
+
+/-- "The legacy format holds the more recent eligible backup": it holds a backup at all, and either
+the current format holds none, or — with no timestamp — some legacy file is newer than every
+current-format file, or — with timestamp `T` — some legacy snapshot not after `T` is newer than
+every current-format snapshot before `T`. -/
+def FormatSpec (snaps : List Snap) (segs : List Seg) (ltxAll ltxSnaps : List Nat) (T : Nat) : Prop :=
+  (∃ t ∈ v3Times snaps segs, 0 < t) ∧
+  ((∀ u ∈ ltxAll, u = 0) ∨
+    (if T = 0 then ∃ t ∈ v3Times snaps segs, ∀ u ∈ ltxAll, u < t
+     else ∃ s ∈ snaps, s.created ≤ T ∧ ∀ u ∈ ltxSnaps, u < T → u < s.created))
+
+theorem v3_format_choice (snaps : List Snap) (segs : List Seg) (ltxAll ltxSnaps : List Nat) (T : Nat)
+    (hs : SortedN ltxSnaps) :
+    shouldUseV3 snaps segs ltxAll ltxSnaps T = true ↔ FormatSpec snaps segs ltxAll ltxSnaps T := by
+  have hge := v3UpdatedAt_ge snaps segs
+  have hmem := v3UpdatedAt_mem snaps segs
+  have lge := maxTime_ge ltxAll
+  have lmem := maxTime_mem ltxAll
+  unfold shouldUseV3 FormatSpec
+  simp only
+  by_cases hv : v3UpdatedAt snaps segs = 0
+  · simp only [hv, if_true, Bool.false_eq_true, false_iff]
+    rintro ⟨⟨t, ht, hpos⟩, _⟩
+    have := hge t ht
+    omega
+  · simp only [hv, if_false]
+    have hfirst : ∃ t ∈ v3Times snaps segs, 0 < t := by
+      rcases hmem with h | h
+      · exact absurd h hv
+      · exact ⟨_, h, by omega⟩
+    by_cases hl : maxTime ltxAll = 0
+    · simp only [hl, if_true, true_iff]
+      refine ⟨hfirst, Or.inl ?_⟩
+      intro u hu
+      have := lge u hu
+      omega
+    · simp only [hl, if_false]
+      have hlm : maxTime ltxAll ∈ ltxAll := by
+        rcases lmem with h | h
+        · exact absurd h hl
+        · exact h
+      have hnot : ¬ ∀ u ∈ ltxAll, u = 0 := fun h => hl (h _ hlm)
+      by_cases hT : T = 0
+      · simp only [hT, ne_eq, not_true_eq_false, if_false, if_true, decide_eq_true_eq]
+        constructor
+        · intro h
+          refine ⟨hfirst, Or.inr ?_⟩
+          rcases hmem with h' | h'
+          · exact absurd h' hv
+          · refine ⟨_, h', ?_⟩
+            intro u hu
+            have := lge u hu
+            omega
+        · rintro ⟨_, h | ⟨t, ht, hall⟩⟩
+          · exact absurd h hnot
+          · have h1 := hge t ht
+            have h2 := hall _ hlm
+            omega
+      · simp only [hT, ne_eq, not_false_eq_true, if_true, if_false]
+        have hsel := lastSat_sorted (eligible T) (exSort snaps) (exSort_sorted snaps)
+        have helig : ∀ a : Snap, eligible T a = true ↔ a.created ≤ T := by
+          intro a; simp [eligible, hT]
+        cases hb : findBestSnapshot (exSort snaps) T with
+        | none =>
+          simp only [Bool.false_eq_true, false_iff]
+          rintro ⟨_, h | ⟨s, hs1, hs2, _⟩⟩
+          · exact absurd h hnot
+          · have := (lastSat_none (eligible T) (exSort snaps)).1 hb s ((exSort_mem snaps s).2 hs1)
+            rw [(helig s).2 hs2] at this
+            cases this
+        | some v =>
+          have hv3 := hsel v hb
+          have hvm : v ∈ snaps := (exSort_mem snaps v).1 hv3.1
+          have hvT : v.created ≤ T := (helig v).1 hv3.2.1
+          cases hlb : lastBefore T ltxSnaps with
+          | none =>
+            simp only [true_iff]
+            refine ⟨hfirst, Or.inr ⟨v, hvm, hvT, ?_⟩⟩
+            intro u hu hut
+            exact absurd hut ((lastBefore_none T ltxSnaps).1 hlb u hu)
+          | some l =>
+            have hl3 := lastBefore_sorted T ltxSnaps hs l hlb
+            simp only [decide_eq_true_eq]
+            constructor
+            · intro h
+              refine ⟨hfirst, Or.inr ⟨v, hvm, hvT, ?_⟩⟩
+              intro u hu hut
+              have := hl3.2.2 u hu hut
+              omega
+            · rintro ⟨_, h | ⟨s, hs1, hs2, hall⟩⟩
+              · exact absurd h hnot
+              · have h1 := hall l hl3.1 hl3.2.1
+                have h2 := hv3.2.2 s ((exSort_mem snaps s).2 hs1) ((helig s).2 hs2)
+                omega
+
+
 /-! ### Non-vacuity -/
 
 def exSnaps : List Snap := [⟨0, 0, 100⟩, ⟨0, 2, 300⟩, ⟨1, 0, 500⟩, ⟨1, 1, 500⟩]
@@ -156,5 +253,8 @@ example : restorePlan [⟨0, 0, 100⟩] (exSegs.filter (· ≠ ⟨0, 1, 0, 4152,
 example : restorePlan [⟨0, 0, 100⟩] [⟨0, 0, 0, 4152, 110⟩, ⟨0, 0, 12392, 4120, 130⟩] 0 = .error .missingSegment := by decide
 example : noStrayOffset exSegs = true ∧ contigB 0 none (exSegs.filter (·.gen == 0)) = true := by decide
 example : noStrayOffset f10Segs = false := by decide
+/-- legacy newer than current format without timestamp; current-format snapshot newer before T=250 -/
+example : shouldUseV3 exSnaps exSegs [50, 200, 400] [50, 200] 0 = true ∧ shouldUseV3 exSnaps exSegs [50, 200, 400] [50, 200] 250 = false ∧
+    shouldUseV3 exSnaps exSegs [50, 200, 400] [50, 200] 150 = true := by decide
 
 end Litestream.C19
